@@ -101,6 +101,42 @@ fn seg_dist(p: &Point2, a: &Point2, b: &Point2) -> f64 {
     (p - (a + ab * t)).norm()
 }
 
+/// serialise parry's QBVH of a polyline: `n k` + k lanes (`minx miny maxx maxy` + child), child = `l edge` or a nested node
+fn dump_qbvh(t: &mut Tok, pl: &parry2d_f64::shape::Polyline) {
+    use parry2d_f64::shape::SimdCompositeShape;
+    let q = pl.qbvh();
+    fn node(t: &mut Tok, q: &parry2d_f64::partitioning::Qbvh<u32>, k: usize) {
+        let nd = &q.raw_nodes()[k];
+        let mut lanes = vec![];
+        for ii in 0..4 {
+            let child = nd.children[ii];
+            let bx = nd.simd_aabb.extract(ii);
+            if nd.is_leaf() {
+                if let Some(px) = q.raw_proxies().get(child as usize) {
+                    lanes.push((bx, Err(px.data)));
+                }
+            } else if (child as usize) < q.raw_nodes().len() {
+                lanes.push((bx, Ok(child as usize)));
+            }
+        }
+        t.w("n").n(lanes.len());
+        for (bx, c) in lanes {
+            t.f(bx.mins.x).f(bx.mins.y).f(bx.maxs.x).f(bx.maxs.y);
+            match c {
+                Err(e) => {
+                    t.w("l").n(e as usize);
+                }
+                Ok(k2) => node(t, q, k2),
+            }
+        }
+    }
+    if q.raw_nodes().is_empty() {
+        t.w("n").n(0);
+    } else {
+        node(t, q, 0);
+    }
+}
+
 fn one(rng: &mut Rng) {
     let pts = polyline(rng);
     let Ok(c) = Curve2::from_points(&pts, 1e-9, false) else { return };
@@ -197,6 +233,23 @@ fn one(rng: &mut Rng) {
             emit("ray.intersections", &i, &o, &v);
         } else {
             emit_oracle_only("ray.intersections", &Tok::new(), &o, &v);
+        }
+        // the traversal itself: the real bounding-volume tree of this polyline is handed to the model,
+        // which checks the box invariant the completeness theorem assumes and runs its own traversal
+        if n <= 300 {
+            let mut i = Tok::new();
+            pts2(&mut i, &v_);
+            i.f(ray.origin.x).f(ray.origin.y).f(ray.dir.x).f(ray.dir.y);
+            dump_qbvh(&mut i, &pl);
+            let direct = engeom::geom2::polyline2::polyline_intersections(&pl, &ray);
+            let mut o = Tok::new();
+            o.b(true).b(true).n(direct.len());
+            for h in &direct {
+                o.f(h.0).n(h.1);
+            }
+            let mut v = Verdict::new();
+            v.require(direct.len() == hits.len() && direct.iter().zip(&hits).all(|(a, b)| a.0 == b.0 && a.1 == b.1), "intersections.curve_and_polyline_agree", || "".into());
+            emit("ray.bvh", &i, &o, &v);
         }
     }
 }
